@@ -255,7 +255,7 @@ namespace {
            static_cast<std::string::size_type>(trimmed_amt.length()));
 
         std::ostringstream amtbuf;
-        if (slip + amt_slip < 2)
+        if (! amt.empty() && slip + amt_slip < 2)
           amtbuf << string(2 - (slip + amt_slip), ' ');
         amtbuf << amt;
 
